@@ -42,18 +42,33 @@ mod verif_ff {
         }
     }
 
+    // error-message formatting is irrelevant to the contract and dominates CBMC's cost
+    fn fmt_stub(_args: core::fmt::Arguments<'_>) -> String {
+        String::new()
+    }
+
     // order of code units, and the dispatch of `encode`
     #[kani::proof]
     #[kani::unwind(6)]
-    fn ff_encode_dispatch() {
+    #[kani::stub(alloc::fmt::format, fmt_stub)]
+    fn ff_encode_dispatch_le() {
+        encode_dispatch(0);
+    }
+
+    #[kani::proof]
+    #[kani::unwind(6)]
+    #[kani::stub(alloc::fmt::format, fmt_stub)]
+    fn ff_encode_dispatch_be() {
+        encode_dispatch(1);
+    }
+
+    fn encode_dispatch(which: u8) {
         let b: [u8; 2] = kani::any();
         kani::assume(b[0] < 0x80 && b[1] < 0x80);
         let s = two_ascii(&b);
-        let which: u8 = kani::any();
-        kani::assume(which < 2);
         let enc: &'static Encoding = if which == 0 { encoding_rs::UTF_16LE } else { encoding_rs::UTF_16BE };
         let r = FileFormatter::encode(enc, s);
-        kani::cover!(which == 1, "big endian");
+        kani::cover!(b[0] != b[1], "two different characters");
         match r {
             Err(_) => assert!(false, "OB orchestr/encode_utf16_supported: UTF-16LE/BE are encoded by the hand-written encoders, never rejected"),
             Ok(out) => {
@@ -67,6 +82,7 @@ mod verif_ff {
     // write(): bytes appended = BOM ++ encoded text; the returned length is exactly that
     #[kani::proof]
     #[kani::unwind(6)]
+    #[kani::stub(alloc::fmt::format, fmt_stub)]
     fn ff_write_len() {
         let b: [u8; 2] = kani::any();
         kani::assume(b[0] < 0x80 && b[1] < 0x80);
